@@ -1294,14 +1294,18 @@ class PathEngine:
         # keyword view: positional arguments of a repository callee are also recorded under the callee's parameter
         # names, so that rules do not depend on how a private call happens to be spelled (positional / keyword / order)
         bound = kwargs
-        if len(targets) == 1 and t0.kind in ("repo", "ctor") and not any(isinstance(a, tuple) and a and a[0] == "star" for a in args) and "**" not in kwargs:
+        # (one repository callee; a receiver that may also hold the result of a library call of unknown type - the
+        # None of `d.get(k)`, excluded by a test on the path - adds an unnamed candidate, not a second callee)
+        rts = [t for t in targets if t.kind in ("repo", "ctor")]
+        tb = rts[0] if len(rts) == 1 and all(t.kind == "lib" and "()." in (t.name or "") for t in targets if t is not rts[0]) else None
+        if tb is not None and not any(isinstance(a, tuple) and a and a[0] == "star" for a in args) and "**" not in kwargs:
             names: list[str] | None = None
-            if t0.func is not None:
-                names = t0.func.positional_params()
-                if t0.kind == "ctor" or (t0.func.is_method and not t0.func.is_staticmethod and (t0.self_expr is not None or t0.func.is_classmethod)):
+            if tb.func is not None:
+                names = tb.func.positional_params()
+                if tb.kind == "ctor" or (tb.func.is_method and not tb.func.is_staticmethod and (tb.self_expr is not None or tb.func.is_classmethod)):
                     names = names[1:]
-            elif t0.cls is not None:
-                names = self.prog.all_fields(t0.cls)
+            elif tb.cls is not None:
+                names = self.prog.all_fields(tb.cls)
             if names is not None and len(args) <= len(names):
                 bound = dict(kwargs)
                 for i, a in enumerate(args):
